@@ -1005,6 +1005,10 @@ def _shared_roles(fn):
             if len(names) == 2:
                 for i_, nm_ in enumerate(names):
                     roles[nm_] = comps[i_][0] if i_ in comps else ("HAS_SHARED", "WRAPPING")[i_]
+        elif r == "self.shared_attr_info()" and A.kind(st["pat"]) == "Pat::Ident" and any(isinstance(k_, str) for k_ in comps):
+            # kept as one value and read by field: `shared.is_wrapping`
+            for fld_, (role_, _) in comps.items():
+                roles[f"{st['pat']['ident']['sym']}.{fld_}"] = role_
         elif r == "self.shared_attr_info()" and A.kind(st["pat"]) == "Pat::Struct":
             for fp in st["pat"]["fields"]:
                 mn = fp["member"]["0"]["sym"] if A.kind(fp["member"]) == "Member::Named" else None
@@ -1049,13 +1053,15 @@ def rule_shared_decision(ctx):
         'self.shared_attr.map_or(true,|attr|attr.contains_arg("_variant"))',
         "self.shared_attr.is_some_and(|attr|attr.transparent_call().map_or(true,|(_,called_trait)|&called_trait!=self.trait_ident||!shared_attr_contains_variant))",
     ]
+    atxt = A.alpha(txt, numbered=False)
     for w in want:
-        if w not in txt:
+        # (compared up to the names of the locals)
+        if w not in txt and A.alpha(w, numbered=False) not in atxt:
             ctx.report("shared_attr_info", ctx.where(si.file, si.node), f"`shared_attr_info` no longer computes `{w[:80]}..`: which variants are wrapped / defaulted changes", {"body": txt})
             break
     else:
-        comps = sorted(v[1] for v in _shared_info_components(si).values())
-        if comps != ["has_shared_attr", "has_shared_attr&&shared_attr_contains_variant"]:
+        comps = sorted(A.alpha(v[1], numbered=False) for v in _shared_info_components(si).values())
+        if comps != ["$", "$&&$"]:
             ctx.report("shared_attr_info", ctx.where(si.file, si.node), f"`shared_attr_info` no longer returns the pair (present, present && contains `_variant`) (found {comps}): which variants are wrapped / defaulted changes", {"body": txt})
     # wrap shape
     ok = False
